@@ -1039,6 +1039,38 @@ def self_clash_schema(package="selfclash"):
     return s
 
 
+def internal_names_schema(package="intnames"):
+    """Entities named like *locals and parameters of the generated member functions*: `last` (the local of the generated
+    size_bytes: `const auto last = last();` for a level whose last group/data member is called `last`) and `args` (the
+    parameter pack of the generated by-tag accessors), in every member position, plus `Args`.  Both were pointed out in
+    passing by a round-6 sub-agent on the unchanged tree and are repaired in /repo (DESIGN section 7); the names of
+    template parameters (`Byte`, `Cursor`, ...) stay outside, see DESIGN 2.2."""
+    from . import refmodel
+    nid = _ids()
+    types = [std_header(), std_dimension(), std_vardata(),
+             Composite("cargs", [Type("args", "uint8"), Type("Args", "uint8"), Type("last", "uint16")])]
+    vd = "varDataEncoding"
+    msgs = [
+        # `last` as the last data member / the last group / the last member of an entry / a field
+        Message("m_last_data", 1, [Field("x", nid(), "uint8")], [], [Data("first", nid(), vd), Data("last", nid(), vd)]),
+        Message("m_last_group", 2, [Field("lastf", nid(), "uint16")],
+                [Group("g", nid(), [Field("x", nid(), "uint8")], [], []), Group("last", nid(), [Field("x", nid(), "uint8")], [], [])], []),
+        Message("m_last_nested", 3, [Field("x", nid(), "uint8")],
+                [Group("outer", nid(), [Field("x", nid(), "uint8")],
+                       [Group("last", nid(), [Field("y", nid(), "uint8")], [], [Data("last", nid(), vd)])], [])], []),
+        Message("last", 4, [Field("x", nid(), "uint8")], [], [Data("last", nid(), vd)]),
+        # `args` / `Args` as field, composite member, group, data
+        Message("m_args", 5, [Field("args", nid(), "uint8"), Field("Args", nid(), "cargs"), Field("last", nid(), "uint32")], [], []),
+        Message("m_args_group", 6, [Field("x", nid(), "uint8")],
+                [Group("args", nid(), [Field("args", nid(), "uint8")], [], [Data("Args", nid(), vd)])], [Data("Args", nid(), vd)]),
+        Message("args", 7, [Field("args", nid(), "cargs")], [Group("Args", nid(), [Field("x", nid(), "uint8")], [], [])], []),
+    ]
+    s = Schema(package, id=12, version=1, types=types, messages=msgs, description="names of generated locals and parameters", name=package)
+    refmodel.fix_offsets(s)
+    refmodel.fit_ids_to_header(s)
+    return s
+
+
 def big_header_schema(package="bighdr"):
     """Identifying values beyond 32 bits: schema version, message block length and group block length >= 2^32 in 64-bit
     header members (C17 only: the fillers touch nothing but the header, so no buffer of that size is needed).  Added after
